@@ -504,7 +504,8 @@ func (o OneOfSchema[KeyType]) structSelects(data any, member Object, key KeyType
 		return false, false
 	}
 	structField, mapped := object.fieldCache[o.DiscriminatorFieldNameValue]
-	if !mapped {
+	property, declared := object.PropertiesValue[o.DiscriminatorFieldNameValue]
+	if !mapped || !declared {
 		return false, false
 	}
 	value := reflect.ValueOf(data)
@@ -528,6 +529,10 @@ func (o OneOfSchema[KeyType]) structSelects(data any, member Object, key KeyType
 			return false, false
 		}
 		field = field.Elem()
+	}
+	if property.emptyIsDefault && field.IsZero() {
+		// The empty value stands for "not set" (TreatEmptyAsDefaultValue): the value does not name its member.
+		return false, false
 	}
 	// The field holds a native value of the key's kind (a string, an integer of some width): no lenient conversions here.
 	keyValue := reflect.ValueOf(key)
